@@ -21,7 +21,7 @@ CLAUSES = {
 
 
 def model_check(ctx, shape, max_env, flagsets="CoreFlagSets", env="AllEnv", faults="AllFault",
-                invariants=None, properties=None, workers=NCPU, timeout=3600, contents="{0, 1}", profile="LeafProfile", alt=None):
+                invariants=None, properties=None, workers=NCPU, timeout=3600, contents="{0, 1}", profile="LeafProfile", alt=None, simulate=None):
     """Exhaustive TLC run of Repo.tla for one forest shape; raises CheckError if TLC finds a counterexample
     (a counterexample in the design is a defect of the specification or of the design, not yet a verdict
     about the code - see DESIGN.md section 5)."""
@@ -37,7 +37,18 @@ def model_check(ctx, shape, max_env, flagsets="CoreFlagSets", env="AllEnv", faul
         if props:
             f.write("PROPERTIES %s\n" % " ".join(props))
         f.write("CHECK_DEADLOCK FALSE\n")
-    rc, out = ctx.tlc("MCRepo", cfg=name, workers=workers, timeout=timeout, ok_codes=(0, 12, 13))
+    if simulate:
+        # random behaviours of the design model (for MaxEnv = 0: histories of any length), invariants and action
+        # properties checked in every state; simulate = "num=<traces per worker>,depth=<steps>"
+        num, depth = [x.split("=")[1] for x in simulate.split(",")]
+        rc, out = ctx.tlc("MCRepo", cfg=name, workers=workers, timeout=timeout, ok_codes=(0, 12, 13),
+                          simulate="num=%s" % num, extra=["-depth", depth, "-seed", str(ctx.seed)])
+        m = re.search(r"(\d+) states checked, (\d+) traces generated", out) or re.search(r"The number of states generated: (\d+)()", out)
+        if rc == 0 and m:
+            ctx.transitions += int(m.group(1))
+            out += "\n%s states generated, 0 distinct states found (simulation: %s behaviours)" % (m.group(1), m.group(2) or "?")
+    else:
+        rc, out = ctx.tlc("MCRepo", cfg=name, workers=workers, timeout=timeout, ok_codes=(0, 12, 13))
     if rc != 0:
         raise CheckError("TLC found a counterexample in the design model Repo.tla (%s, MaxEnv=%d); it has to be reproduced on the "
                          "real code before it is a verdict:\n%s" % (shape, max_env, "\n".join(out.splitlines()[-60:])))
